@@ -163,6 +163,12 @@ Theorem C05_append_no_alias : forall grow xs h owned r s',
 Proof. exact arr_construct_fresh. Qed.
 Print Assumptions C05_append_no_alias.
 
+(* and the value pushed on completion holds exactly the outputs of q, in order *)
+Theorem C05_array_construct_value : forall grow xs s r s',
+  run (arr_construct grow xs) s = Some (r, s') -> run (elems r) s' = Some (xs, s').
+Proof. exact arr_construct_value. Qed.
+Print Assumptions C05_array_construct_value.
+
 (* ---- determinism: the tie to the code ---- *)
 (* every `range` over a map, every maps.* / sort.* / reflect call on a JSON container, every write into a
    JSON container in package gojq and cli is on the reviewed list (finite computation over the list
